@@ -1,6 +1,8 @@
 """C06 -- truncated input is always reported as buffer underflow, never decoded."""
 from __future__ import annotations
 
+import ast
+
 from .. import scan
 from ..core import AnalysisError
 from .streams import SERIAL_MODULES, site_loc, stmt_at, exc_class
@@ -104,6 +106,21 @@ def check(rep, ctx):
     rep.check(R_H, ok, construct="kio.serial.errors:BufferUnderflow", stmt="class BufferUnderflow(DecodeError)",
               message="BufferUnderflow's bases are not the documented DecodeError < SerialError < Exception",
               file="src/kio/serial/errors.py", line=chain[0].node.lineno)
+    # the error classes are plain exception classes: raising, re-raising, `raise ... from`, add_note() and the traceback machinery assign
+    # attributes on the instance; a frozen / slotted class turns that assignment into a different exception that replaces the underflow
+    esrc = ctx.sm.require("kio.serial.errors")
+    for cnode in [n for n in esrc.tree.body if isinstance(n, ast.ClassDef)]:
+        problems = []
+        if cnode.decorator_list:
+            problems.append(f"decorated with {[ast.unparse(d_) for d_ in cnode.decorator_list]}")
+        for st_ in cnode.body:
+            names = [t.id for t in getattr(st_, "targets", []) if isinstance(t, ast.Name)] + ([st_.name] if isinstance(st_, ast.FunctionDef) else [])
+            for nm in names:
+                if nm in ("__slots__", "__setattr__", "__delattr__", "__getattribute__", "__init_subclass__", "__new__"):
+                    problems.append(f"defines {nm}")
+        rep.check(R_H, not problems, construct=f"kio.serial.errors:{cnode.name}", stmt=f"class {cnode.name}",
+                  message=f"the error class is not a plain exception class ({'; '.join(problems)}): exception.add_note(...), a chained raise or a "
+                          f"traceback assignment raises TypeError / FrozenInstanceError in place of the decode error", file=esrc.rel, line=cnode.lineno)
     # handlers
     bu = chain[0]
     for h in scan.handlers(ctx, SERIAL_MODULES):
